@@ -361,3 +361,21 @@ pub proof fn lemma_small_primes_elems(i: int)
     else if i == 45 { assert(is_prime_c(199)) by (compute_only); }
 }
 } // verus!
+
+verus! {
+impl FBase {
+    /// views of the (partly private) fields
+    pub closed spec fn sp(&self) -> Seq<u32> { self.primes@ }
+    pub closed spec fn sr(&self) -> Seq<u32> { self.sqrts@ }
+    pub closed spec fn sd(&self) -> Seq<arith::Dividers> { self.divs@ }
+    /// representation invariant of a factor base: parallel vectors, every prime below 2^24 with its square root of n
+    /// reduced modulo it and its divider
+    pub open spec fn wf(&self) -> bool {
+        &&& self.sp().len() == self.sr().len()
+        &&& self.sp().len() == self.sd().len()
+        &&& forall|i: int| 0 <= i < self.sp().len() ==> 2 <= #[trigger] self.sp()[i] < 0x100_0000
+        &&& forall|i: int| 0 <= i < self.sp().len() ==> #[trigger] self.sr()[i] < self.sp()[i]
+        &&& forall|i: int| 0 <= i < self.sp().len() ==> (#[trigger] self.sd()[i]).wfa() && self.sd()[i].pv() == self.sp()[i] as int
+    }
+}
+} // verus!
